@@ -31,8 +31,8 @@ m = {
     "add_only": True,
   },
   "engines": [
-    {"name": "kani-contracts", "path": "engine/kani_engine.py", "serves_properties": [c["property_id"] for c in checks if c["engine"] != "verus-extract"],
-     "kind_free_text": "Kani 0.68 function contracts and step/full-domain harnesses over the real crates (CBMC back end)"},
+    {"name": "kani-contracts", "path": "engine/kani_engine.py", "serves_properties": [c["property_id"] for c in checks],
+     "kind_free_text": "Kani 0.68 function contracts and step/full-domain harnesses over the real crates (CBMC back end); for C14 only in the thorough tier (Clock, SIEVE, LruList)"},
     {"name": "verus-extract", "path": "engine/vextract.py", "serves_properties": sorted(p for p in cfg if not p.startswith("_") and cfg[p].get("uses_verus")),
      "kind_free_text": "Verus 0.2026.09.13 on functions extracted verbatim from /repo on every run (Z3 back end)"},
   ],
